@@ -1,7 +1,9 @@
 (* GenLocksProofs.v — lock discipline of the code as it is NOW: the skeletons in coq/gen/GenLocks.v are regenerated
-   from /repo's source on every run (gotrans locktrace: every function of the core packages — segment/query,
-   segment/metadata, segment/writer, segment/query/metadata, segment/pqmr, segment/query/pqs, writer/suffix,
-   virtualtable — with calls among them inlined six levels deep), the analysis of LockTrace.v is run on each of them
+   from /repo's source on every run (gotrans locktrace: every function of the 19 packages listed in gotrans/locks.json —
+   segment/query, query/processor, query/metadata, query/pqs, query/summary, query/colusage, segment/metadata, segment/search,
+   segment/writer, writer/suffix, writer/metrics (+meta), segment/pqmr, results/mresults, results/segresults,
+   results/blockresults, reader/segread, memory/limit, virtualtable — type-checked with go/types, static calls among them
+   followed six levels deep), the analysis of LockTrace.v is run on each of them
    inside Coq, and LockTraceProofs.analyse_sound turns a clean analysis into a statement about EVERY trace of the
    skeleton: the goroutine never acquires a mutex it already holds (a recursive read lock deadlocks as soon as a
    writer queues in between) and never blocks on a channel while it holds a lock.
